@@ -59,6 +59,10 @@ impl Sys {
             .next()
             .and_then(|s| s.parse().ok())
     }
+    /// the argument list with `\xHH` escapes decoded (addresses, paths)
+    pub fn decoded_args(&self) -> String {
+        decode_hex_path(&self.args)
+    }
     pub fn failed(&self) -> bool {
         self.ret.trim_start().starts_with("-1")
     }
